@@ -116,15 +116,21 @@ def execute(program, ch: Chooser) -> Result:  # noqa: C901, PLR0912, PLR0915
                         viols.append(
                             viol("enqueue", "rejected-before-finish", "accepted", "RuntimeError")
                         )
-            elif op == "finish":
-                q.finish()
-                reason = reason or "StopAsyncIteration"
-            elif op == "finish_err":
-                q.finish(err)
-                reason = reason or "QErr"
-            elif op == "cancel":
-                q.cancel()
-                reason = reason or "CancelledError"
+                except Exception as exc:  # noqa: BLE001
+                    viols.append(
+                        viol("enqueue", f"raises-{type(exc).__name__}", "accepted" if reason is None else "RuntimeError", repr(exc)[:120], history=list(hist))
+                    )
+            elif op in ("finish", "finish_err", "cancel"):
+                try:
+                    if op == "finish":
+                        q.finish()
+                    elif op == "finish_err":
+                        q.finish(err)
+                    else:
+                        q.cancel()
+                except Exception as exc:  # noqa: BLE001
+                    viols.append(viol("finish", f"{op}-raises-{type(exc).__name__}", "no error", repr(exc)[:120], history=list(hist)))
+                reason = reason or {"finish": "StopAsyncIteration", "finish_err": "QErr", "cancel": "CancelledError"}[op]
             elif op == "recv":
                 recv_task = loop.create_task(receive())
             elif op == "cancel_recv":
